@@ -16,6 +16,27 @@ CHECKS = {
     ),
 }
 
+CHECKS.update({
+    "C03": (
+        "bounded-exhaustive enumeration of bucket contents x windows x limits on the real stores, integer interval oracle",
+        "Every multiset of <=2 (thorough 3) lattice events x every window (open-ended, zero-width, sub-ms shifted, tz-offset) x limits is stored in and read from each real backend in three time embeddings (1 s, 1 ms, 6 h crossing midnight with 24 h events) and compared with closed-interval arithmetic under the statement's 2 ms tolerance; eventcount for every window. Complete per order type of the endpoints for n events.",
+        "Trusted: the 40-line interval oracle; SQLite. Events within 2 ms of an edge are free by the statement. Events > 24 h and contents with > 3 events are not generated.",
+        "DESIGN.md 3.4, 4 C03",
+    ),
+    "C04": (
+        "explicit-state BFS over two-bucket histories of the real stores with exhaustive probe ops (all ids in the database) and a frame oracle",
+        "All reachable states of a three-bucket database (A, B operated, <=2 live events each, instants coinciding across buckets) are enumerated on each real backend; in every state every operation is issued against A with every id present anywhere in the database or never-existed, plus update/delete bucket; every other bucket's listing and metadata must be identical afterwards.",
+        "Trusted: SQLite; canonical form as in C02. Only the frame is compared (the op may succeed or raise).",
+        "DESIGN.md 3.2, 4 C04",
+    ),
+    "C07": (
+        "exhaustive enumeration of heartbeat streams fed through the real stores, compared with heartbeat_reduce after every heartbeat",
+        "Every heartbeat stream of length <=4 (thorough 5) with strictly increasing starts and non-decreasing ends on a lattice, 2 labels, pulsetimes below/at/above the gaps, is ingested by the standard loop into each real backend sharing its database with a bucket populated at every lattice instant; after every heartbeat the bucket equals heartbeat_reduce(prefix), earlier events are untouched, the other bucket is unchanged.",
+        "Trusted: heartbeat_reduce of the working tree as oracle (itself checked against the hull rule by C08); SQLite.",
+        "DESIGN.md 4 C07",
+    ),
+})
+
 NOT_YET = {}
 
 
